@@ -1,6 +1,7 @@
 package main
 
 import (
+	"os/exec"
 	"encoding/json"
 	"runtime/pprof"
 	"flag"
@@ -453,6 +454,13 @@ func runCheck(cfg *propertyConfig, tier, repo string, seed int) int {
 			"known_findings_hit": knownHit,
 		},
 	}
+	// thorough tier on the real tree: must-fail self-test.  Every seeded property-breaking change
+	// kept under /verif/seeded/<ID>-n is applied to a scratch copy (outside /repo and /verif, removed
+	// afterwards) and this property's quick check is run against it: evidence that the obligations
+	// are not vacuous.  The outcome is recorded, it never changes the exit status of the check.
+	if tier == "thorough" && repo == "/repo" && os.Getenv("LVC_NO_SELFTEST") == "" {
+		ev["coverage"].(map[string]interface{})["selftest"] = seedSelfTest(cfg.ID)
+	}
 	_ = os.MkdirAll(evidenceDir, 0o755)
 	b, _ := json.MarshalIndent(ev, "", " ")
 	_ = os.WriteFile(filepath.Join(evidenceDir, cfg.ID+".json"), b, 0o644)
@@ -520,4 +528,67 @@ func writeReplay(dir, prop, name, why, detail string, o *Obligation) string {
 	}
 	_ = os.WriteFile(path, []byte(b.String()), 0o644)
 	return path
+}
+
+// seedSelfTest runs the quick check of property id against each seeded change of that property.
+func seedSelfTest(id string) []map[string]interface{} {
+	var out []map[string]interface{}
+	dirs, _ := filepath.Glob(filepath.Join(verifRoot, "seeded", id+"-*"))
+	sort.Strings(dirs)
+	if len(dirs) == 0 {
+		return out
+	}
+	base := filepath.Join("/var/tmp", fmt.Sprintf("lvc-selftest-%s-%d", id, os.Getpid()))
+	defer os.RemoveAll(base)
+	scratch := filepath.Join(base, "repo")
+	self, err := os.Executable()
+	if err != nil {
+		self = filepath.Join(verifRoot, "bin", "lvc")
+	}
+	for _, d := range dirs {
+		patch := filepath.Join(d, "patch.diff")
+		if _, err := os.Stat(patch); err != nil {
+			continue
+		}
+		rec := map[string]interface{}{"seed": filepath.Base(d)}
+		_ = os.MkdirAll(scratch, 0o755)
+		if o, err := exec.Command("rsync", "-a", "--delete", "--exclude", ".git", "/repo/", scratch+"/").CombinedOutput(); err != nil {
+			rec["result"] = "scratch copy failed: " + trunc(string(o), 200)
+			out = append(out, rec)
+			continue
+		}
+		pc := exec.Command("patch", "-p1", "-s", "-i", patch)
+		pc.Dir = scratch
+		if o, err := pc.CombinedOutput(); err != nil {
+			rec["result"] = "patch does not apply to the current tree: " + trunc(string(o), 200)
+			out = append(out, rec)
+			continue
+		}
+		cc := exec.Command(self, "check", id, "--tier", "quick", "--repo", scratch)
+		cc.Dir = verifRoot
+		cc.Env = append(os.Environ(), "LVC_NO_SELFTEST=1")
+		o, _ := cc.CombinedOutput()
+		caught := []string{}
+		for _, l := range strings.Split(string(o), "\n") {
+			if strings.HasPrefix(l, "VIOLATION") {
+				if i := strings.Index(l, "obligation="); i >= 0 {
+					caught = append(caught, strings.Fields(l[i+len("obligation="):])[0])
+				}
+			}
+		}
+		if len(caught) > 0 {
+			rec["result"] = "caught"
+			rec["failed_obligations"] = caught
+		} else {
+			rec["result"] = "missed by this property's check"
+		}
+		out = append(out, rec)
+	}
+	// the scratch runs wrote under /verif/work/scratch*: remove what they left
+	if ms, _ := filepath.Glob(filepath.Join(verifRoot, "work", "scratch_var_tmp_lvc-selftest-*")); len(ms) > 0 {
+		for _, m := range ms {
+			_ = os.RemoveAll(m)
+		}
+	}
+	return out
 }
